@@ -54,22 +54,27 @@ def r1_bound(ck, cx, sh):
     # loop body paths
     nb = 0
     for p in cx.enum_region(ex, tm, sh.loop.body):
-        annotate(p, heap=False)
+        st = annotate(p, heap=False)
         if contradictory(p):
             continue
         nb += 1
         tx = [e for e in p.ev if e.kind == 'call' and callee_name(e.node) == '_transact']
-        decs = [e for e in p.ev if e.kind == 'aug' and isinstance(e.a, ast.Name) and e.a.id == var]
-        other = [e for e in p.ev if e.kind == 'assign' and isinstance(e.a, ast.Name) and e.a.id == var]
         ck.ob('R1', ex.qn, 'one transmission per loop iteration', len(tx) == 1, detail='transact-per-iteration %d' % len(tx), loc=cx.floc(ex, sh.loop),
               message='a loop iteration calls _transact %d times' % len(tx))
-        ck.ob('R1', ex.qn, 'counter is only ever decremented', not other and all(isinstance(e.node.op, ast.Sub) for e in decs),
-              detail='counter-reassigned', loc=cx.floc(ex, sh.loop))
+        # net change of the counter over the iteration (value propagation: final value in terms of the initial one)
+        final = st.loc.get((0, var))
+        try:
+            delta = (nz.norm(final) - Poly.atom(var)) if final is not None else Poly.const(0)
+        except NotInt:
+            delta = None
+        dv = delta.const_value() if delta is not None else None
+        ck.ob('R1', ex.qn, 'counter only ever decreases inside the loop', dv is not None and dv <= 0,
+              detail='counter-change %s' % (delta,), loc=cx.floc(ex, sh.loop),
+              message='the retry counter changes by %s in one iteration' % (delta,))
         if p.exit in (None, 'continue'):
-            ok = len(decs) == 1 and cx.ce.try_ev(decs[0].node.value, ex.mod, tm) == 1
-            ck.ob('R1', ex.qn, 'every path back to the loop test decrements the counter by exactly 1', ok,
-                  detail='backedge-decrement %d' % len(decs), loc=cx.floc(ex, sh.loop),
-                  message='a path returns to the loop test with %d decrement(s) of the counter: the number of transmissions is not bounded by 1 + retries' % len(decs))
+            ck.ob('R1', ex.qn, 'every path back to the loop test decrements the counter by exactly 1', dv == -1,
+                  detail='backedge-decrement %s' % (delta,), loc=cx.floc(ex, sh.loop),
+                  message='a path returns to the loop test with the counter changed by %s: the number of transmissions is not bounded by 1 + retries' % (delta,))
     ck.floor('R1', nb, 10, 'loop-body paths')
     # _transact call sites: inside the loop, plus the broadcast send
     sites = [n for n in ast.walk(tm.node if False else cx.idx.cls('pymodbus.transaction.ModbusTransactionManager').node)
